@@ -24,3 +24,14 @@ func TestVerifFindingKillRegionCursor(t *testing.T) {
 		t.Errorf("kill-region then yank: got %q, want %q", got, "aaa ")
 	}
 }
+
+// C03: (*Shell).run/post:macro-as-typed — OPEN finding (demonstration; fails on the current tree): the keys of a
+// macro binding are queued BEHIND keys that were typed ahead in the same read, instead of taking their place.
+func TestVerifFindingMacroBehindTypeAhead(t *testing.T) {
+	s := newSession(false)
+	s.rl.Config.Bind("emacs", "Q", "abc", true)
+	s.keys("Qd") // one chunk: the macro key followed by type-ahead
+	if got := s.buffer(); got != "abcd" {
+		t.Errorf("macro Q=abc, typed \"Qd\" in one read: buffer %q, want %q", got, "abcd")
+	}
+}
